@@ -44,6 +44,7 @@ ce92150 C05 C05-stale-handle-closes-successor
 d63250d C09 C09-send-hangs-while-read-side-fails
 eca7f36 C18 C18-orphan-notification-handler
 17b7272 C10 C10-oversized-frame-aborts-graceful-wait
+990294b C11 C11-get-proxy-turns-429-into-500
 LIST
 rm -rf /verif/replays
 (cd /verif/sim && cargo build --release --offline -q 2>/dev/null)
